@@ -113,7 +113,14 @@ def coarse_spaces(tier, seed):
     non = dict(base, kind=["nonideal_iso", "nonideal_noniso"], prog=["none", "poly", "poly_cross0", "log_t0"], steps=[1, 2, 3, 6],
                curves=[spaces.CURVE_CONFIGS["one"], spaces.CURVE_CONFIGS["two"]],
                init_perm=[None, {"values": (2.5e-2, 3.0e-5)}, {"values": (2.0e-2, 1.5e-2)}])
-    return [core.Space("coarse_ideal", ideal, ok), core.Space("coarse_nonideal", non, ok)]
+    # over-draw followed by back-permeation: a hot first step removes more than the feed holds, then the programme holds the
+    # feed so cold that the permeate side (30 kPa, or warmer than the feed) pushes material BACK: the mass dips below zero
+    # and recovers, so a guard that looks at the final state only is blind
+    back = dict(base, kind=["ideal_iso", "ideal_noniso", "nonideal_iso", "nonideal_noniso"], prog=["none", "cold_hold"], T=[368.15],
+                mode=[("p", 30.0), ("T", 343.15), ("p", 0.5)], frac=core.lat([0.6, 1.1, 1.3, 3.0], seed), steps=[2, 3, 6, 10], dt=[0.5, 1.0],
+                x0=[1.0, 0.0] + core.lat([0.999, 0.5], seed), mixture=["H2O_EtOH", "S2"], P=[(1e-3, 2e-5), (1e-3, 8e-4)],
+                curves=[spaces.CURVE_CONFIGS["one"]], init_perm=[None])
+    return [core.Space("coarse_ideal", ideal, ok), core.Space("coarse_nonideal", non, ok), core.Space("overdraw_then_backflow", back, ok)]
 
 
 def main(tier, seed):
